@@ -221,7 +221,7 @@ func checkC10(p *Prog, l *Ledger) {
 	}
 	_ = digits
 	// ---- S3 + I1 on number()
-	checkNumberScanner(p, l)
+	checkNumberScanner(p, l, "C10/S3-literal-shape", "C10/I1-value")
 	// ---- S4 ParseFloat call sites
 	n := 0
 	for _, fn := range p.ModuleFuncs() {
@@ -536,10 +536,10 @@ func uniqMap(xs []string) map[string]bool {
 }
 
 // checkNumberScanner: literal shape and value on the scanner graph.
-func checkNumberScanner(p *Prog, l *Ledger) {
+func checkNumberScanner(p *Prog, l *Ledger, shapeRule, valueRule string) {
 	fn := p.Func("lexer.(*Scanner).number")
 	if fn == nil {
-		l.Undecide("C10/S3-literal-shape", "number", "", "not found")
+		l.Undecide(shapeRule, "number", "", "not found")
 		return
 	}
 	m := NewLexModel(p, "number")
@@ -570,12 +570,12 @@ func checkNumberScanner(p *Prog, l *Ledger) {
 		}
 	}
 	for msg, e := range bad {
-		l.Violate("C10/S3-literal-shape", "number#"+shortMsgKey(msg), e.Pos, msg)
+		l.Violate(shapeRule, "number#"+shortMsgKey(msg), e.Pos, msg)
 	}
 	if len(bad) == 0 && nCons >= 3 {
-		l.Discharge("C10/S3-literal-shape", "number", p.Pos(fn.Pos()), fmt.Sprintf("digits* ('.' only before a digit) digits*: all %d consumption sites take only digits, or the point under peek()=='.' && isDigit(peekNext())", nCons), true)
+		l.Discharge(shapeRule, "number", p.Pos(fn.Pos()), fmt.Sprintf("digits* ('.' only before a digit) digits*: all %d consumption sites take only digits, or the point under peek()=='.' && isDigit(peekNext())", nCons), true)
 	} else if nCons < 3 {
-		l.Violate("C10/S3-literal-shape/vacuity", "number", "", fmt.Sprintf("only %d consumption sites in number()", nCons))
+		l.Violate(shapeRule+"/vacuity", "number", "", fmt.Sprintf("only %d consumption sites in number()", nCons))
 	}
 	// value
 	wantLit := "ParseFloat(ConvertBanglaDigitsToASCII(conv:string(s.source[s.start:s.current])),64)#0"
@@ -625,5 +625,5 @@ func checkNumberScanner(p *Prog, l *Ledger) {
 		}
 		return s
 	}}
-	runMonG(l, "C10/I1-value", "number", m.G, mon, "the NUMBER literal is ParseFloat(ConvertBanglaDigitsToASCII(lexeme), 64); a conversion error gives a diagnostic and no token")
+	runMonG(l, valueRule, "number", m.G, mon, "the NUMBER literal is ParseFloat(ConvertBanglaDigitsToASCII(lexeme), 64); a conversion error gives a diagnostic and no token")
 }
